@@ -9,8 +9,10 @@ import (
 	"math"
 	"reflect"
 	"regexp"
+	"runtime"
 	"strconv"
 	"strings"
+	"time"
 	"unicode/utf8"
 
 	"pgregory.net/rapid"
@@ -44,7 +46,7 @@ type KeysCase struct {
 	M Arg `json:"m"`
 }
 
-var goMapNames = []string{"mapint", "mapbool", "mapfloat", "maparr", "mapmystr", "mymap", "mapmap", "nilmap", "nilimap"}
+var goMapNames = []string{"mapint", "mapbool", "mapfloat", "maparr", "mapmystr", "mymap", "mapmap", "nilmap", "nilimap", "mapnan", "mapinan"}
 
 func genKeys(t *rapid.T) KeysCase {
 	var v V
@@ -752,8 +754,12 @@ func convOracle(c ConvCase, o *h.Obs) *h.Fail {
 
 type MisuseCase struct {
 	F    string `json:"f"`
-	Mode string `json:"mode"` // count | type | any
+	Mode string `json:"mode"` // count | type | any | forms
 	Args []Arg  `json:"args"`
+	// Form (mode forms): how the variadic builtin range is called with the integer arguments
+	// Ints: spread | go | gospread | defer | deferspread
+	Form string  `json:"form,omitempty"`
+	Ints []int64 `json:"ints,omitempty"`
 }
 
 // parameter type of every builtin taking exactly one argument
@@ -797,6 +803,17 @@ func mustReject(param string, v V) bool {
 }
 
 func genMisuse(t *rapid.T) MisuseCase {
+	if rapid.Uint64().Draw(t, "forms")%8 == 0 {
+		// the variadic builtin in every call form, with too few / too many / zero-step / fine arguments
+		c := MisuseCase{F: "range", Mode: "forms", Form: rapid.SampledFrom([]string{"spread", "go", "gospread", "defer", "deferspread"}).Draw(t, "form")}
+		for n := rapid.IntRange(0, 5).Draw(t, "nints"); n > 0; n-- {
+			c.Ints = append(c.Ints, rapid.Int64Range(-2, 6).Draw(t, "int"))
+		}
+		if len(c.Ints) == 3 && rapid.Bool().Draw(t, "zerostep") {
+			c.Ints[2] = 0
+		}
+		return c
+	}
 	f := rapid.SampledFrom(unaryNames).Draw(t, "f")
 	c := MisuseCase{F: f}
 	switch rapid.IntRange(0, 2).Draw(t, "mode") {
@@ -833,6 +850,9 @@ func genMisuse(t *rapid.T) MisuseCase {
 }
 
 func misuseOracle(c MisuseCase, o *h.Obs) *h.Fail {
+	if c.Mode == "forms" {
+		return misuseForms(c, o)
+	}
 	s := newScript()
 	parts := make([]string, len(c.Args))
 	for i, a := range c.Args {
@@ -872,6 +892,65 @@ func misuseOracle(c MisuseCase, o *h.Obs) *h.Fail {
 		if err == nil {
 			return h.Failf("C19|misuse|missing-error|wrong-type|"+c.F+"|"+kindLabel(c.Args[0].V), "source:\n%s\nthe argument cannot be a %s; expected an error, got %s", o.Key, param, ank.Describe(got))
 		}
+	}
+	return nil
+}
+
+// misuseForms: range(...) called through a spread list, a go statement, a deferred call. Invalid
+// arguments (none, more than three, a zero step) are an error of the call - or, for go and defer,
+// at least never a crash of the process.
+func misuseForms(c MisuseCase, o *h.Obs) *h.Fail {
+	if c.F != "range" || len(c.Ints) > 8 {
+		o.Excluded = "malformed_case"
+		return nil
+	}
+	parts := make([]string, len(c.Ints))
+	for i, v := range c.Ints {
+		parts[i] = fmt.Sprint(v)
+	}
+	plain := strings.Join(parts, ", ")
+	list := "[" + plain + "]..."
+	var src string
+	switch c.Form {
+	case "spread":
+		src = "range(" + list + ")"
+	case "go":
+		src = "go range(" + plain + ")\nsettle()\n1"
+	case "gospread":
+		src = "go range(" + list + ")\nsettle()\n1"
+	case "defer":
+		src = "func() {\n defer range(" + plain + ")\n return 1\n}()"
+	case "deferspread":
+		src = "func() {\n defer range(" + list + ")\n return 1\n}()"
+	default:
+		o.Excluded = "malformed_case"
+		return nil
+	}
+	o.Key = src
+	o.NonTrivial = true
+	o.Class("builtin:range")
+	o.Class("misuse:form=" + c.Form)
+	invalid := len(c.Ints) == 0 || len(c.Ints) > 3 || (len(c.Ints) == 3 && c.Ints[2] == 0)
+	if invalid {
+		o.Class("misuse:invalid_range_arguments")
+	}
+	s := newScript()
+	s.e.Define("settle", func() {
+		// give a goroutine started by the script time to run (and, if it panics, to kill the process)
+		for i := 0; i < 20; i++ {
+			runtime.Gosched()
+		}
+		time.Sleep(200 * time.Microsecond)
+	})
+	got, err := s.run(src)
+	if f := hostPanic("misuse:range:"+c.Form, src, err); f != nil {
+		return f
+	}
+	if c.Form == "spread" && invalid && err == nil {
+		return h.Failf("C19|misuse|missing-error|range|spread", "source:\n%s\nexpected an error, got %s", src, ank.Describe(got))
+	}
+	if c.Form == "spread" && !invalid && err != nil {
+		return h.Failf("C19|misuse|unexpected-error|range|spread", "source:\n%s\nerror: %v", src, err)
 	}
 	return nil
 }
